@@ -177,4 +177,97 @@ theorem parseCpuLines_render (c : Cfg) (hg : c.Good) (tck : Nat) (htck : 0 < tck
       startsWith_cpuLine, if_true, hg.pcSliceFrom, hg.pcSliceExtra, splitWs_cpuLine,
       parseCpuValues_render c hg tck htck nf ncols hnf hcols, ih (i + 1), List.map_cons]
 
+/-! ### the token grammar -/
+
+/-- shape of a rendered decimal: a first digit that is `0` only for the number zero, then digits -/
+theorem renderAux_shape (n : Nat) : ∀ acc : Bytes, ∃ d ds,
+    renderRadixAux decimal n acc = (48 + d) :: (ds ++ acc) ∧ d < 10 ∧
+      (d = 0 → n = 0 ∧ ds = []) ∧ ∀ c ∈ ds, isDigit c = true := by
+  induction n using Nat.strongRecOn with
+  | _ n ih =>
+    intro acc
+    unfold renderRadixAux
+    by_cases h : n < decimal.base
+    · have h10 : n < 10 := h
+      refine ⟨n, [], ?_, h10, ?_, ?_⟩
+      · simp [decimal, h10]
+      · intro h0; exact ⟨h0, rfl⟩
+      · intro c hc; simp at hc
+    · have h10 : ¬ n < 10 := h
+      have hlt : n / decimal.base < n := Nat.div_lt_self (by omega) (by decide)
+      obtain ⟨d, ds, he, hd, h0, hds⟩ := ih (n / decimal.base) hlt (decimal.chr (n % decimal.base) :: acc)
+      refine ⟨d, ds ++ [decimal.chr (n % decimal.base)], ?_, hd, ?_, ?_⟩
+      · simp only [h, dite_false, he, List.append_assoc, List.singleton_append]
+      · intro hz
+        have := (h0 hz).1
+        have hb : decimal.base = 10 := rfl
+        rw [hb] at this
+        omega
+      · intro c hc
+        rcases List.mem_append.mp hc with hc | hc
+        · exact hds c hc
+        · simp only [List.mem_singleton] at hc
+          subst hc
+          have : n % 10 < 10 := Nat.mod_lt _ (by decide)
+          simp only [decimal, isDigit, Bool.and_eq_true]
+          constructor <;> (apply decide_eq_true; omega)
+
+/-- every number the renderer prints is a token of the grammar -/
+theorem renderDec_kernelTok (n : Nat) : isKernelTok (renderDec n) = true := by
+  obtain ⟨d, ds, he, hd, h0, hds⟩ := renderAux_shape n []
+  unfold renderDec renderRadix
+  rw [he]
+  simp only [List.append_nil]
+  have hdig : isDigit (48 + d) = true := by
+    simp only [isDigit, Bool.and_eq_true, decide_eq_true_eq]; omega
+  cases ds with
+  | nil => simpa [isKernelTok] using hdig
+  | cons x xs =>
+    have hne : d ≠ 0 := by
+      intro hz
+      have := (h0 hz).2
+      simp at this
+    have hall : (x :: xs).all isDigit = true := by
+      rw [List.all_eq_true]
+      exact hds
+    simp only [isKernelTok, hdig, hall, Bool.and_true, Bool.true_and, decide_eq_true_eq]
+    omega
+
+theorem parseAux_digits : ∀ (cs : Bytes) (acc : Nat), (∀ c ∈ cs, isDigit c = true) →
+    ∃ n, parseRadixAux decimal cs acc = some n := by
+  intro cs
+  induction cs with
+  | nil => intro acc _; exact ⟨acc, rfl⟩
+  | cons c cs ih =>
+    intro acc h
+    have hc := h c (by simp)
+    simp only [isDigit, Bool.and_eq_true, decide_eq_true_eq] at hc
+    have hv : decimal.val c = some (c - 48) := by simp [decimal, hc]
+    simp only [parseRadixAux, hv]
+    exact ih _ (fun x hx => h x (by simp [hx]))
+
+theorem kernelTok_digits (t : Bytes) (h : isKernelTok t = true) : t ≠ [] ∧ ∀ c ∈ t, isDigit c = true := by
+  match t, h with
+  | [d], h =>
+    refine ⟨by simp, ?_⟩
+    intro c hc
+    simp only [List.mem_singleton] at hc
+    subst hc
+    simpa [isKernelTok] using h
+  | d :: x :: xs, h =>
+    refine ⟨by simp, ?_⟩
+    simp only [isKernelTok, Bool.and_eq_true, List.all_eq_true] at h
+    intro c hc
+    rcases List.mem_cons.mp hc with rfl | hc
+    · exact h.1.1
+    · exact h.2 c hc
+
+/-- the model's parser is total on the grammar: every kernel token has a decimal value -/
+theorem kernelTok_parses (t : Bytes) (h : isKernelTok t = true) : ∃ n, parseDec? t = some n := by
+  obtain ⟨hne, hd⟩ := kernelTok_digits t h
+  unfold parseDec? parseRadix?
+  cases t with
+  | nil => exact absurd rfl hne
+  | cons c cs => exact parseAux_digits (c :: cs) 0 hd
+
 end Psutil.C07
